@@ -16,7 +16,7 @@
  *                             &<r>,<a>,<b> |<r>,<a>,<b> -<r>,<a>,<b> #<r> k<r>,<n> x<r>
  *                             =<a>,<b> R<n> f<r>,<x> i<r> u<r>,<org>,<lim> d
  *            F <prefix formula>            a<i> n<i> T F & | ~
- *            Q <formula> ; <formula>
+ *            Q <formula> ; <formula>       (q: both directions)
  *            L <natoms>                    leaf constructors
  *   containers_drv random KIND SEED STEPS PARAM OUT
  *        KIND: T (PARAM = hash mode), B (PARAM = t), P (PARAM = key range), V (PARAM ignored)
@@ -794,6 +794,8 @@ static void dnfPairEv(const char *ev, DNF x, DNF y)
 	Eend();
 }
 
+static int bothWays;              /* 'q' cases (random pairs): test both directions */
+
 static void dnfCaseQ(char **tok, int n)
 {
 	DNF x, y; int semi;
@@ -807,7 +809,7 @@ static void dnfCaseQ(char **tok, int n)
 	quiet = 0;
 	dnfPairEv("DImp", x, y); if (dirty) return;
 	dnfPairEv("DEq", x, y);  if (dirty) return;
-	if (caseNo % 16 == 0) {       /* the exhaustive pair set is ordered, so (y,x) is a case of its own */
+	if (bothWays || caseNo % 16 == 0) {       /* the exhaustive pair set is ordered, so (y,x) is a case of its own */
 		dnfPairEv("DImp", y, x); if (dirty) return;
 		dnfPairEv("DEq", x, x);  if (dirty) return;
 	}
@@ -903,7 +905,8 @@ static void runCase(char *line)
 		break;
 	case 'L': dnfLeaves(atoi(tok[1])); break;
 	case 'F': dnfCaseF(tok + 1, n - 1); break;
-	case 'Q': dnfCaseQ(tok + 1, n - 1); break;
+	case 'Q': bothWays = 0; dnfCaseQ(tok + 1, n - 1); break;
+	case 'q': bothWays = 1; dnfCaseQ(tok + 1, n - 1); break;
 	default: fprintf(stderr, "containers_drv: bad case %s\n", tok[0]); _exit(2);
 	}
 }
